@@ -158,6 +158,14 @@ def run(ctx):
                     ctx.hit("mutant accepted")
                 except Exception:
                     ctx.hit("mutant rejected")
+                if k % 3 == 0:  # an already loaded rule object is given the mutated text and loaded again (stale state must not survive)
+                    try:
+                        again = fl.Rule.create(base, engine)
+                        again.parse(text)
+                        again.load(engine)
+                    except Exception:
+                        pass
+                    ctx.hit("event:reload of a loaded rule")
                 if k % 5 == 0:  # the same through a rule block (per-rule errors are collected)
                     rb = fl.RuleBlock("m", conjunction=fl.Minimum(), disjunction=fl.Maximum(), implication=fl.Minimum(), activation=fl.General())
                     for t in (base, text):
@@ -219,7 +227,7 @@ def run(ctx):
                 ctx.sample("injected", {"class": cls, "valid": base, "broken": bad})
         probe.report(ctx)
         reach.report(ctx)
-    ctx.require("hook:Rule.parse", "hook:Rule.load", "hook:Antecedent.load", "hook:Consequent.load", "hook:RuleBlock.load_rules", "hook:FllImporter.from_string", "mutant accepted", "mutant rejected", "document mutant accepted", "document mutant rejected", "accepted rule evaluated", "accepted document exported")
+    ctx.require("hook:Rule.parse", "hook:Rule.load", "hook:Antecedent.load", "hook:Consequent.load", "hook:RuleBlock.load_rules", "hook:FllImporter.from_string", "mutant accepted", "mutant rejected", "document mutant accepted", "document mutant rejected", "accepted rule evaluated", "accepted document exported", "event:reload of a loaded rule")
     if ctx.nshards == 1:
         for cls in M.ERROR_CLASSES:
             ctx.require(f"injected:{cls}")
